@@ -364,9 +364,23 @@ def fp_boundary(t):
     return sorted(set(vs))
 
 
-def pick_fp(rng, t):
+def pick_fp(rng, t, narrow=None):
     prec, emax = FMT[t]
-    if rng.random() < 0.75:
+    r = rng.random()
+    if narrow is not None:
+        r = 0.1 if r < 0.6 else 0.3 + r
+    if r < 0.08:                                  # signed zeros: - x, 0 * x, x + (-x), ?: and casts must keep / produce the sign
+        return fp_str(rng.random() < 0.5, 0, 0)
+    if r < 0.22 and t != 'float':
+        # exactly on / next to a rounding tie of a NARROWER format, the deciding bit as low as possible (lost when the
+        # value is rounded to an intermediate format first)
+        q = FMT[narrow if narrow is not None else rng.choice([u for u in FP_TYPES if FMT[u][0] < prec])][0]
+        top = (1 << (q - 1)) | rng.getrandbits(q - 1)
+        low = rng.choice([0, 1, 1, 1 << rng.randint(0, prec - q - 2), (1 << (prec - q - 1)) - 1])
+        m = (top << (prec - q)) | (1 << (prec - q - 1)) | low if rng.random() < 0.8 else (top << (prec - q)) | ((1 << (prec - q - 1)) - 1)
+        e = rng.choice([-(prec - 1), -(prec - 1), 0, -prec - 5, 3 - prec])
+        return fp_str(rng.random() < 0.3, m, e)
+    if r < 0.78:
         m, e = rng.choice(fp_boundary(t))
     else:
         m = rng.getrandbits(rng.choice([3, 8, 24, 25, prec, prec])) | (1 if rng.random() < 0.5 else 0)
@@ -398,6 +412,26 @@ def pick_fp_near(rng, tf, ti):
     if not fp_ok(tf, m, e):
         return pick_fp(rng, tf)
     return fp_str(neg, m, e)
+
+
+def pick_int_near_tie(rng, ti, tf):
+    """an integer of type ti that is not representable in floating type tf: exactly on a rounding tie, one above / below
+    it, with the deciding bit far below the tie (lost if the conversion goes through a wider floating type first)"""
+    prec = FMT[tf][0]
+    w = WIDTH[ti] - (1 if SIGNED[ti] else 0)
+    k = rng.choice([w, w, w - 1, rng.randint(prec + 1, w)]) if w > prec + 1 else w        # bit length of the value
+    top = (1 << (k - 1)) | (rng.getrandbits(prec - 1) << (k - prec))
+    if rng.random() < 0.5:
+        top |= 1 << (k - prec)                            # odd / even kept part: ties go to even
+    half = 1 << (k - prec - 1)
+    low = rng.choice([half, half + 1, half + 1, half + 1, half - 1, half - 1, half + (1 << rng.randint(0, max(0, k - prec - 2))), 0, 1])
+    if low == half + 1:
+        top &= ~(1 << (k - prec))                         # just above a tie of an even number: an intermediate rounding makes it the tie
+    elif low == half - 1 and half > 1:
+        top |= 1 << (k - prec)                            # just below a tie of an odd number
+    v = (top & ~((1 << (k - prec)) - 1)) | (low & ((1 << (k - prec)) - 1)) if k - prec > 0 else top
+    v = min(v, tmax(ti))
+    return -v if SIGNED[ti] and rng.random() < 0.3 else v
 
 
 def is_f2u64_big(c):
@@ -436,15 +470,19 @@ def gen_fvalue_cases(rng, n):
             out.append(('fbin', op, ta, va, tb, vb))
         elif r < 0.50:
             t = rng.choice(FP_TYPES)
-            out.append(('fun', rng.choice(['+', '-', '!']), t, pick_fp(rng, t)))
+            out.append(('fun', rng.choice(['+', '-', '-', '!']), t, pick_fp(rng, t)))
         elif r < 0.72:
             if rng.random() < 0.5:
-                t, s = rng.choice(FP_TYPES), rng.choice(TYPES)
+                t, s = rng.choice(FP_TYPES), rng.choice(TYPES if rng.random() < 0.5 else ['long', 'ulong', 'llong', 'ullong', 'ldouble', 'double'])
             else:
                 t, s = rng.choice(TYPES), rng.choice(FP_TYPES)
             v = pick_any(rng, s)
+            if is_fp(s) and is_fp(t) and FMT[t][0] < FMT[s][0]:
+                v = pick_fp(rng, s, narrow=t)
             if is_fp(s) and not is_fp(t) and t != 'bool' and rng.random() < 0.6:
                 v = pick_fp_near(rng, s, t)
+            elif is_fp(t) and not is_fp(s) and WIDTH[s] > FMT[t][0] and rng.random() < 0.75:
+                v = pick_int_near_tie(rng, s, t)
             out.append(('fcast', t, s, v))
         elif r < 0.93:
             # ?: with a constant condition: integer / floating mixes of the selected and the other part
